@@ -1337,6 +1337,8 @@ def np_mean(I, st, args, kw, node):
     a = arr_of(st, args[0])
     if a.ndim != 1:
         raise Unsupported("mean of n-d")
+    if a.sort == "bool":
+        a = Arr(a.shape, lambda i, a=a: z3.If(to_z3(a.at(i)), z3.RealVal(1), z3.RealVal(0)), "real")
     return s_div(T.sums.total(st, a), a.shape[0])
 
 
@@ -1530,3 +1532,61 @@ def np_percentile(I, st, args, kw, node):
     st.assume(t >= w.at(j))
     st.assume(z3.Implies(p == 0, t == w.at(j)))
     return t
+
+
+# ---------------------------------------------------------------------------- masked / scattered stores (T-ARR)
+def _same_mask(I, st, X, Y):
+    if X is Y or X.uid == Y.uid:
+        return True
+    n = to_z3(X.shape[0], "int")
+    qi = z3.Int(fresh_name("qm"))
+    chk = z3.Solver()
+    chk.set("timeout", 2000)
+    chk.add(*st.pc)
+    chk.add(z3.Or(n != to_z3(Y.shape[0], "int"), z3.And(qi >= 0, qi < n, to_z3(X.at(qi)) != to_z3(Y.at(qi)))))
+    return chk.check() == z3.unsat
+
+
+@ext("__maskstore__", "a[mask] = b[mask] / a[mask] = scalar: rows where mask holds are replaced, all others kept")
+def maskstore(I, st, base, A, X, value, node):
+    I.oblige(f"mask-length@{getattr(node, 'lineno', '?')}", st, to_z3(X.shape[0], "int") == to_z3(A.shape[0], "int"), node)
+    V = arr_of(st, value)
+    if V is None:
+        def fn(i, *r):
+            c = to_z3(X.at(i))
+            want = "real" if A.sort == "real" else None
+            return z3.If(c, to_z3(value, want), to_z3(A.at(i, *r), want))
+        st.set_arr(base, Arr(A.shape, fn, A.sort))
+        return
+    pv = V.prov
+    if pv is not None and pv[0] == "select" and _same_mask(I, st, pv[2], X):
+        B = pv[1]
+        st.set_arr(base, Arr(A.shape, lambda i, *r: z3.If(to_z3(X.at(i)), to_z3(B.at(i, *r)), to_z3(A.at(i, *r))), A.sort,
+                             prov=("maskstore", A, X, B)))
+        return
+    if pv is not None and pv[0] == "copy" and ("sel", X.uid) in st.ghost and not z3.is_expr(st.ghost[("sel", X.uid)][1]):
+        B = pv[1]     # all-True mask: whole-array assignment
+        st.set_arr(base, Arr(A.shape, B.fn, A.sort))
+        return
+    raise Unsupported(f"masked store of a value that is not a selection by the same mask (line {getattr(node, 'lineno', '?')})")
+
+
+@ext("__scatter__", "a[sel_idx] = v where sel_idx = arange(n)[mask]: row sel_idx[k] receives v[k]; rows outside mask are kept")
+def scatter(I, st, base, A, X, value, node):
+    pv = X.prov
+    V = arr_of(st, value)
+    if not (pv is not None and pv[0] == "select" and pv[1].prov == ("arange",)):
+        raise Unsupported(f"scatter through an index array that is not arange(n)[mask] (line {getattr(node, 'lineno', '?')})")
+    mask = pv[2]
+    m, sel, inv = st.ghost[("sel", mask.uid)]
+    I.oblige(f"scatter-index-in-range@{getattr(node, 'lineno', '?')}", st,
+             to_z3(mask.shape[0], "int") <= to_z3(A.shape[0], "int"), node)
+    if V is None:
+        st.set_arr(base, Arr(A.shape, lambda i, *r: z3.If(z3.And(to_z3(i, "int") < to_z3(mask.shape[0], "int"), to_z3(mask.at(i))),
+                                                          to_z3(value), to_z3(A.at(i, *r))), A.sort))
+        return
+    I.oblige(f"scatter-shapes-match@{getattr(node, 'lineno', '?')}", st, to_z3(V.shape[0], "int") == to_z3(m, "int"), node)
+    invf = inv if callable(inv) else None
+    st.set_arr(base, Arr(A.shape, lambda i, *r: z3.If(z3.And(to_z3(i, "int") < to_z3(mask.shape[0], "int"), to_z3(mask.at(i))),
+                                                      to_z3(V.at(inv(to_z3(i, "int")), *r)), to_z3(A.at(i, *r))), A.sort,
+                         prov=("scatter", A, mask, V)))
